@@ -149,8 +149,12 @@ RRact ==     \* IsActive()
 
 RRdo ==      \* operator.do(): competes with the poller's handling of this descriptor
     /\ rpc = "r_rdo"
-    /\ IF opst = 1 THEN opst' = 2 /\ rpc' = "r_rl2" /\ UNCHANGED opi ELSE NextOp /\ UNCHANGED opst
+    /\ IF opst = 1 THEN opst' = 2 /\ rpc' = "r_ract2" /\ UNCHANGED opi ELSE NextOp /\ UNCHANGED opst
     /\ UNCHANGED <<ops, rerr, inlen, wrs, rt, closing, timer, ticked, pend, sent, peerClosed, detached, ppc, pk, pevhup, hpc, rets>>
+
+RRact2 ==    \* the token is held: IsActive() again (the slot is this connection's only while it is active)
+    /\ rpc = "r_ract2" /\ rpc' = IF closing = 0 THEN "r_rl2" ELSE "r_rdone"
+    /\ UNCHANGED <<ops, opi, rerr, inlen, wrs, rt, closing, opst, timer, ticked, pend, sent, peerClosed, detached, ppc, pk, pevhup, hpc, rets>>
 
 RRl2 ==      \* "double check length to reset tail node"
     /\ rpc = "r_rl2" /\ rpc' = "r_rdone"
@@ -160,7 +164,7 @@ RRdone ==
     /\ rpc = "r_rdone" /\ opst' = 1 /\ NextOp
     /\ UNCHANGED <<ops, rerr, inlen, wrs, rt, closing, timer, ticked, pend, sent, peerClosed, detached, ppc, pk, pevhup, hpc, rets>>
 
-Reader == RLen0 \/ RWs \/ RLoop \/ RSt \/ RSt2 \/ RWait \/ RWaitT \/ RDbl \/ RTDrain \/ RNLen \/ RNSub \/ RRl \/ RRact \/ RRdo \/ RRl2 \/ RRdone
+Reader == RLen0 \/ RWs \/ RLoop \/ RSt \/ RSt2 \/ RWait \/ RWaitT \/ RDbl \/ RTDrain \/ RNLen \/ RNSub \/ RRl \/ RRact \/ RRdo \/ RRact2 \/ RRl2 \/ RRdone
 
 \* ---- poller ------------------------------------------------------------------------
 Readable == ~detached /\ (pend > 0 \/ peerClosed)
@@ -231,7 +235,7 @@ Next == Reader \/ Poller \/ Hup \/ PeerSend \/ PeerClose \/ TimerFire
 Spec == Init /\ [][Next]_vars
 
 \* the schedule point a goroutine is parked at
-RPt == CASE rpc \in {"r_len0", "r_loop", "r_dbl", "r_nlen", "r_rl", "r_rl2", "r_st2"} -> 31 [] rpc = "r_ws" -> 32 [] rpc \in {"r_st", "r_ract"} -> 2
+RPt == CASE rpc \in {"r_len0", "r_loop", "r_dbl", "r_nlen", "r_rl", "r_rl2", "r_st2"} -> 31 [] rpc = "r_ws" -> 32 [] rpc \in {"r_st", "r_ract", "r_ract2"} -> 2
          [] rpc = "r_wait" -> 22 [] rpc = "r_waitT" -> 23 [] rpc = "r_tdrain" -> 26 [] rpc = "r_nsub" -> 30 [] rpc = "r_rdo" -> 10 [] rpc = "r_rdone" -> 11 [] OTHER -> 0
 PPt == CASE ppc = "p_fetch" -> 1001 [] ppc = "p_ev" -> 42 [] ppc = "p_do" -> 10 [] ppc \in {"p_add", "p_ra"} -> 30 [] ppc = "p_ws" -> 32 [] ppc = "p_trig" -> 20
          [] ppc = "p_det" -> 14 [] ppc = "p_done" -> 11 [] OTHER -> 0
